@@ -564,4 +564,38 @@ def run(ctx, chk):
     for (f, o), a in sorted(agg.items()):
         chk.instance('R-CAP', short(f), 'push#%d:cap' % o, a['ok'], detail=a['detail'], span=a['span'],
                      what='CSI parameter: empty = 0, saturating at 9999: ' + a['detail'])
+    if ctx.tier == 'thorough' and ctx.test_prog is not None:
+        sibling(ctx, chk, F)
     chk.trust('generator-rs send/yield_ contract (A-GEN)', 'string summaries (eq, contains, chars, parse)', 'rustc MIR + const evaluation')
+
+
+def sibling(ctx, chk, F):
+    """thorough tier: the cfg(test) copy of the recogniser (the one the unit tests execute) is
+    extracted the same way and compared transition by transition with the shipping copy; a
+    divergence is reported as information (the property speaks about the shipping copy)"""
+    try:
+        F2 = fsm.FsmExtractor(ctx, prog=ctx.test_prog)
+    except Exception as e:
+        chk.cov['sibling_divergence'] = 'extraction of the cfg(test) copy failed: %s' % e
+        return
+    div = []
+    n = 0
+    if len(F.sites) != len(F2.sites):
+        div.append('different number of suspension points: %d vs %d' % (len(F.sites), len(F2.sites)))
+    else:
+        for i, (s1, s2) in enumerate(zip(F.sites, F2.sites)):
+            for c in CLASS_REPS:
+                for utf8 in (True, False):
+                    o1 = {(a, tuple(e for e in b if e[0] != 'push'), d) for (a, b, d) in F.step(s1, [c], utf8=utf8)}
+                    o2 = {(a, tuple(e for e in b if e[0] != 'push'), d) for (a, b, d) in F2.step(s2, [c], utf8=utf8)}
+                    n += 1
+                    if _norm(o1) != _norm(o2):
+                        div.append('site %d on %r (%s): shipping %s / test copy %s' % (i, c, 'utf8' if utf8 else '8-bit', sorted(o1, key=str)[:1], sorted(o2, key=str)[:1]))
+    chk.cov['sibling_transitions_compared'] = n
+    chk.cov['sibling_divergence'] = div[:20] if div else 'none: the cfg(test) copy has the same transition relation as the shipping copy'
+
+
+def _norm(outs):
+    def strip(e):
+        return tuple(x if not (isinstance(x, tuple) and x and x[0] in ('str?', 'coll?', 'vec?')) else x[0] for x in e)
+    return {(a, tuple(strip(e) for e in b), d) for (a, b, d) in outs}
